@@ -324,7 +324,9 @@ def assemble(rng):
 
 
 _TWO_POINTS = re.compile(r"^R[0-9]*/([^/P][^/]*)/([^P].*)$", re.S)
-_LONG_NUMBER = re.compile(r"[0-9]{10,}")
+# (ten digits anywhere; or seven and more in a count that multiplies calendar steps: repetitions, years, months,
+#  weeks, days of an interval - R3/P102345100M/... walks millions of years day by day: known finding F10)
+_LONG_NUMBER = re.compile(r"[0-9]{10,}|(?:^R|P|[YMWD])[0-9]{7,}(?=[YMWD/])")
 
 
 def _year_of(text):
